@@ -182,12 +182,14 @@ fn check_positions(input: &str, chars: &[char], table: &[(usize, usize)], p: &Pa
                 case_json(input, vec![("config", J::s(cfg))]),
             );
         }
-        let want = format!("{} at byte {} line {} column {}", e.info, e.at.index, e.at.line, e.at.col + 1);
-        if e.display != want {
+        // the printed form shows the line and the 1-based column of the marker (nothing else about
+        // its wording is asserted)
+        let want = format!("line {} column {}", e.at.line, e.at.col + 1);
+        if !e.display.contains(&want) || !e.display.contains(&e.info) {
             viol(
                 stats,
                 format!("C12/error/display/{cfg}"),
-                format!("{cfg}: error prints as {:?}, expected {want:?}", e.display),
+                format!("{cfg}: error prints as {:?}, which does not show {want:?} and its message", e.display),
                 case_json(input, vec![("config", J::s(cfg))]),
             );
         }
@@ -710,6 +712,46 @@ pub fn check_c17(input: &str, stats: &mut Stats, rng: &mut Rng, exhaustive_budge
                 format!("{calls} load(multi=false) calls for {docs} documents"),
                 case_json(input, vec![]),
             );
+        }
+    }
+
+    // (e) mixed use: next() for the first k events, a peek(), then load() takes over — the peeked
+    // event must be the first one load() delivers and nothing may be lost or repeated. load() can
+    // only take over at a document boundary: after StreamStart or after a DocumentEnd.
+    if plain.error.is_none() && !plain.capped {
+        let boundaries: Vec<usize> = plain.events.iter().enumerate().filter(|(_, e)| matches!(e.0, SEv::StreamStart | SEv::DocEnd)).map(|(i, _)| i + 1).collect();
+        if !boundaries.is_empty() {
+            let k = boundaries[rng.below(boundaries.len())];
+            let do_peek = rng.chance(2, 3);
+            let r = catch(|| {
+                let mut p = Parser::new_from_str(input);
+                let mut got: Vec<(SEv, SSpan)> = vec![];
+                for _ in 0..k {
+                    match p.next_event() {
+                        Some(Ok((e, s))) => got.push((sev(&e), sspan(&s))),
+                        _ => return None,
+                    }
+                }
+                if do_peek {
+                    let _ = p.peek();
+                }
+                let mut rec = Recorder { events: vec![], cap: safety_cap(input) };
+                let res = p.load(&mut rec, true);
+                got.extend(rec.events);
+                Some((got, res.err().map(|e| serr(&e))))
+            });
+            if let Ok(Some((got, err))) = r {
+                stats.cnt("next_then_load_histories", 1);
+                let strip = |v: &[(SEv, SSpan)]| -> Vec<(SEv, Option<SSpan>)> { v.iter().map(|(e, s)| (e.clone(), if *e == SEv::StreamEnd { None } else { Some(*s) })).collect() };
+                if err.is_some() || strip(&got) != strip(&plain.events) {
+                    viol(
+                        stats,
+                        format!("C17/next-then-load/{}", if do_peek { "with-peek" } else { "without-peek" }),
+                        format!("{k} next() calls{} followed by load(): delivered {} events / error {:?}, plain iteration has {} events", if do_peek { ", a peek()," } else { "" }, got.len(), err.map(|e| e.display), plain.events.len()),
+                        J::obj(vec![("input", J::s(input)), ("nexts", J::Int(k as i64)), ("peek", J::Bool(do_peek))]),
+                    );
+                }
+            }
         }
     }
 
